@@ -245,3 +245,30 @@ def gradient_reference(ctx: RunContext, ln: Linked, *, exact_slopes: np.ndarray 
             full[mask] = ref
             entry["ref"] = full
     return out
+
+
+# ---------------------------------------------------------------------------
+# realization-filter helpers (C04 / C05)
+def filter_rows(ln: Linked, fidx: int):
+    """Reported weight rows of all functions mapped to filter ``fidx``: list of (kind, j, row)."""
+    cfg = ln.cfg
+    c = model.cfg_counts(cfg)
+    rows = []
+    rl = ln.opt.realizations
+    for kind, n, rep in (("o", c["no"], rl.objective_weights), ("c", c["nc"], rl.constraint_weights)):
+        for j in range(n):
+            if model.filter_of(cfg, kind, j) == fidx and rep is not None:
+                rows.append((kind, j, np.array(rep[j], dtype=float)))
+    return rows
+
+
+def sort_key_values(cfg: dict, flt: dict, yo: np.ndarray, yc: np.ndarray | None) -> np.ndarray:
+    """The value the filter ranks by (optimizer domain): weighted sum of the chosen objectives,
+    or the chosen constraint."""
+    if flt["method"].endswith("objective"):
+        sort = list(flt["options"]["sort"])
+        ow = model.objective_weights(cfg)
+        if ow.size > 1:
+            return np.nan_to_num(yo[:, sort]) @ ow[sort]
+        return np.nan_to_num(yo[:, sort]).reshape(-1)
+    return np.nan_to_num(yc[:, int(flt["options"]["sort"])])
